@@ -18,6 +18,9 @@ def generate(prop, seed, tier='quick'):
             from engines import framing
             return framing.generate(rng, seed, tier)
         return pipeline_gen.gen_c06(rng, seed, tier)
+    if prop == 'C18' and seed % 6 == 0:
+        from engines import svsnet
+        return svsnet.generate(rng, seed, tier)
     mod = _module_for(prop)
     return mod.generate(rng, seed, tier)
 
